@@ -76,7 +76,7 @@ def check_rechunk_plan(case) -> Outcome:
         work_dir = os.path.join(scratch, "work")
         ts = H.TraceStore(MemoryStore())
         rec = H.RecordingExecutor(H.make_executor("single-threaded"))
-        kw = dict(allowed_mem=spec0.allowed_mem, reserved_mem=0, executor=rec)
+        kw = dict(allowed_mem=spec0.allowed_mem, reserved_mem=spec0.reserved_mem, executor=rec)
         if case["compressor"] == "none":
             kw["zarr_compressor"] = None
         use_trace = case.get("factor", 1) % 2 == 1
